@@ -378,7 +378,11 @@ fn run(args: &Args, shapes: &[&'static vhc::ShapeInfo]) {
         if slow_ms > 0 && e.wall_us / 1000 > slow_ms as u128 {
             eprintln!("SLOW {} ms idx={} waits={:?} {}", e.wall_us / 1000, idx, e.wait_stats, case.describe());
         }
+        let tc = std::time::Instant::now();
         let mut verdict = oracle::check(&e);
+        if replay {
+            println!("exec {} us, check {} us", e.wall_us, tc.elapsed().as_micros());
+        }
         if prop == "C15" && e.case.faults.is_empty() {
             // the same computation under num_threads(1)
             let mut c1 = case.clone();
